@@ -82,7 +82,7 @@ Definition grel (h : heap) (g : Gen.Blocks) (b : blocks) : Prop :=
 
 (* the counters fit their Go types *)
 Definition counters_ok (b : blocks) : Prop :=
-  0 <= freeIdx b < 9223372036854775808 /\ -2147483647 <= available b < 2147483647.
+  0 <= freeIdx b <= bsize (bts b) /\ -2147483647 <= available b < 2147483647.
 
 Theorem gen_FreeBlock_refines : forall h g b idx, grel h g b -> geom_ok b -> counters_ok b ->
   -9223372036854775808 <= idx < 9223372036854775808 ->
@@ -239,37 +239,38 @@ Qed.
 (* the index arithmetic of ArrangeBlock fits an int (true of every geometry
    NewBlocks accepts: blksInSegm = 8*blkSize) *)
 Definition geom_ok2 (b : blocks) : Prop :=
-  segments b * blksInSegm b + 8 * blkSize b + 8 < 9223372036854775808.
+  segments b * blksInSegm b + 8 * blkSize b + 8 < 9223372036854775808 /\
+  segments b * ((blksInSegm b + 1) * blkSize b) <= bsize (bts b).   (* the segments lie inside the storage *)
+
+(* what the loop over the segments does, given what the model's loop does *)
+Definition loop1_post (h : heap) (res : blocks * arr_res)
+  (o : outcome (ctl (Gen.Blocks * Z) (Gen.Blocks * Z * error) * heap)) : Prop :=
+  match res with
+  | (b', ArrIdx i) => exists g' h', o = Ok (Return (g', i, ENil), h') /\ grel h' g' b'
+  | (b', ArrErr EExhausted) => exists g' fs, o = Ok (Fall (g', fs), h) /\ grel h g' b'
+  | (b', ArrErr _) => exists g', o = Ok (Return (g', 0, Err), h) /\ grel h g' b'
+  | (_, ArrPanic) => o = GoPanic
+  | (_, ArrOOF) => True
+  end.
 
 (* the loop over the segments; [fidx] is the running value of bks.freeIdx *)
 Lemma gen_Arrange_loop1 : forall n h b g freeSegm fidx f,
   grel h g (with_free b fidx) -> geom_ok b -> geom_ok2 b ->
   -2147483647 <= available b < 2147483647 ->
-  0 <= freeSegm -> 0 <= fidx < 9223372036854775808 ->
+  0 <= freeSegm -> 0 <= fidx <= bsize (bts b) ->
   (Z.to_nat (segments b - freeSegm) <= n)%nat -> (Z.to_nat (segments b - freeSegm) < f)%nat ->
-  match arrange_loop n b freeSegm fidx with
-  | (b', ArrIdx i) =>
-      exists g' h', iter f (Gen.Blocks_ArrangeBlock_loop1 bts_Buffer) (g, freeSegm) h = Ok (Return (g', i, ENil), h') /\
-                    grel h' g' b'
-  | (b', ArrErr EExhausted) =>
-      exists g' fs, iter f (Gen.Blocks_ArrangeBlock_loop1 bts_Buffer) (g, freeSegm) h = Ok (Fall (g', fs), h) /\
-                    grel h g' b'
-  | (b', ArrErr _) =>
-      exists g', iter f (Gen.Blocks_ArrangeBlock_loop1 bts_Buffer) (g, freeSegm) h = Ok (Return (g', 0, Err), h) /\
-                 grel h g' b'
-  | (_, ArrPanic) => iter f (Gen.Blocks_ArrangeBlock_loop1 bts_Buffer) (g, freeSegm) h = GoPanic
-  | (_, ArrOOF) => True
-  end.
+  loop1_post h (arrange_loop n b freeSegm fidx)
+             (iter f (Gen.Blocks_ArrangeBlock_loop1 bts_Buffer) (g, freeSegm) h).
 Proof.
   induction n as [|n IH]; intros h b g freeSegm fidx f R G G2 Hav Hfs Hfi Hn Hf;
     pose proof R as (E1 & E2 & E3 & E4 & E5 & E6 & B); cbn [with_free blkSize blksInSegm segments freeIdx available bts] in *;
     pose proof G as (G1 & G3 & G4 & G5 & G6); pose proof B as (Ba & Bl & Bs & Bb);
     (destruct f as [|f]; [lia|]); rewrite iter_S; unfold Gen.Blocks_ArrangeBlock_loop1 at 1; cbv beta iota zeta;
     cbn [arrange_loop]; rewrite E3.
-  - destruct (Z.ltb_spec freeSegm (segments b)); [lia|]. go_run. unfold ret.
+  - destruct (Z.ltb_spec freeSegm (segments b)); [lia|]. go_run. unfold ret, loop1_post.
     exists g, freeSegm. split; [reflexivity|exact R].
   - destruct (Z.ltb_spec freeSegm (segments b)) as [Hlt|Hge].
-    2:{ go_run. unfold ret. exists g, freeSegm. split; [reflexivity|exact R]. }
+    2:{ go_run. unfold ret, loop1_post. exists g, freeSegm. split; [reflexivity|exact R]. }
     rewrite E1, E4.
     destruct (Z.eqb_spec (blkSize b) 0) as [Z0|Z0]; [rewrite Z0; reflexivity|].
     destruct (quot_facts fidx (blkSize b) ltac:(lia)) as [Qp _]. specialize (Qp ltac:(lia)).
@@ -277,21 +278,21 @@ Proof.
     pose proof (buffer_spec h (bts b) (fidx - Z.rem fidx (blkSize b)) (blkSize b) B) as HB.
     destruct (buf_slice (bts b) (fidx - Z.rem fidx (blkSize b)) (blkSize b)) as [[base len]|] eqn:Es; go_call HB;
       cbv beta iota zeta; cbn [is_nil negb].
-    2:{ repeat go_step. unfold ret. exists g. split; [reflexivity|exact R]. }
+    2:{ repeat go_step. unfold ret, loop1_post. exists g. split; [reflexivity|exact R]. }
     destruct (window_facts h (bts b) _ (blkSize b) base len B G1 Es) as (Eb & W0 & W1 & W2 & W3 & W).
     set (pos := Z.rem fidx (blkSize b)) in *.
     assert (Hpl : 0 <= pos <= len) by lia.
     assert (I1 : 0 <= freeSegm * Gen.Blocks_blksInSegm g) by (rewrite E2; apply Z.mul_nonneg_nonneg; lia).
     assert (I3 : freeSegm * Gen.Blocks_blksInSegm g + len * 8 + 8 < 9223372036854775808).
     { rewrite E2. assert (freeSegm * blksInSegm b <= segments b * blksInSegm b)
-        by (apply Z.mul_le_mono_nonneg_r; lia). unfold geom_ok2 in G2. lia. }
+        by (apply Z.mul_le_mono_nonneg_r; lia). destruct G2 as (G2a & G2b). lia. }
     pose proof (gen_Arrange_loop2 (Z.to_nat len) h (bts b) g freeSegm base len pos
                   (Z.to_nat len + 2) B W0 Hpl W2 ltac:(lia) ltac:(lia) ltac:(lia) ltac:(lia) ltac:(lia) I1 I3) as L2.
     rewrite E4, E2, E5 in L2. cbn [s_len].
     destruct (scan_hdr_spec (Z.to_nat len) (bts b) base len pos fidx Hpl ltac:(lia))
       as [(p & j & Esc & Hp & _ & Hne & Hfz)|(Esc & _)]; rewrite Esc in *.
     + (* a free block found *)
-      go_call L2. cbv beta iota zeta. unfold ret.
+      repeat go_step. go_call L2. cbv beta iota zeta. repeat go_step. unfold ret, loop1_post.
       pose proof (bget_lt_256 (bts b) (base + p)) as Hv.
       destruct (find_zero_bit_spec _ _ Hv Hfz) as (Hj8 & Hcl & _).
       destruct (set_bit_spec _ _ Hv Hj8 Hcl) as (Hm & _ & _). unfold set_bit in Hm.
@@ -299,12 +300,13 @@ Proof.
       do 6 (split; [first [assumption | reflexivity | lia]|]).
       apply window_store; try assumption; lia.
     + (* this header is full: on to the next segment *)
-      go_call L2. cbv beta iota zeta. bk_cbn.
-      assert (Hseg : 0 <= (freeSegm + 1) * ((blksInSegm b + 1) * blkSize b) < 9223372036854775808).
+      repeat go_step. go_call L2. cbv beta iota zeta. repeat go_step. bk_cbn.
+      assert (Hseg : 0 <= (freeSegm + 1) * ((blksInSegm b + 1) * blkSize b) <= bsize (bts b)).
       { assert (0 <= (blksInSegm b + 1) * blkSize b) by (apply Z.mul_nonneg_nonneg; lia).
         assert ((freeSegm + 1) * ((blksInSegm b + 1) * blkSize b) <= segments b * ((blksInSegm b + 1) * blkSize b))
           by (apply Z.mul_le_mono_nonneg_r; lia).
-        split; [apply Z.mul_nonneg_nonneg; lia|]. nia. }
+        destruct G2 as (G2a & G2b).
+        split; [apply Z.mul_nonneg_nonneg; lia|lia]. }
       assert (Hss : 0 <= (blksInSegm b + 1) * blkSize b < 9223372036854775808).
       { split; [apply Z.mul_nonneg_nonneg; lia|]. nia. }
       rewrite E2, E1. go_unwrap. unfold segm_size in *.
@@ -339,7 +341,7 @@ Proof.
   pose proof (gen_Arrange_loop1 (Z.to_nat (segments b)) h b g
                 (Z.quot (freeIdx b) ((blksInSegm b + 1) * blkSize b)) (freeIdx b)
                 (Z.to_nat (segments b) + 2) Rw G G2 ltac:(lia) ltac:(lia) C1 ltac:(lia) ltac:(lia)) as L1.
-  unfold segm_size in L1.
+  unfold segm_size, loop1_post in L1.
   destruct (arrange_loop (Z.to_nat (segments b)) b (Z.quot (freeIdx b) ((blksInSegm b + 1) * blkSize b)) (freeIdx b))
     as [b' [i|e| |]].
   - destruct L1 as (g' & h' & E & R'). go_call E. cbv beta iota zeta. unfold ret. exists g', h'. split; [reflexivity|exact R'].
